@@ -1839,6 +1839,12 @@ class Fxp():
 
             if ufunc in _NUMPY_HANDLED_FUNCTIONS:
                 # dispatch function to implemented in fxpmath
+                # (the configured array output is the target of the calculation itself: the result is quantized once)
+                if 'out' not in kwargs and 'out_like' not in kwargs and self.config._array_output_type == 'fxp':
+                    if self.config.array_op_out is not None:
+                        return _NUMPY_HANDLED_FUNCTIONS[ufunc](*inputs, out=self.config.array_op_out, **kwargs)
+                    elif self.config.array_op_out_like is not None:
+                        return _NUMPY_HANDLED_FUNCTIONS[ufunc](*inputs, out_like=self.config.array_op_out_like, **kwargs)
                 return self._set_array_output_type(_NUMPY_HANDLED_FUNCTIONS[ufunc](*inputs, **kwargs))
 
             # call original numpy function and return wrapped result
